@@ -162,10 +162,27 @@ def run(ctx):
                 raised = "TypeError"
             except ValueError:
                 raised = "ValueError"
+            except Exception as e:
+                raised = type(e).__name__
             sign = 0 if lv is None or isinstance(lv, str) else (1 if lv > 0 else (0 if lv == 0 else -1))
             add({"kind": "verdict", "order": order, "lenKind": lk, "lenSign": sign, "raised": raised},
                 ("verdict", order, lk, lv))
             ctx.case(("verdict", order in TAPS, lk, sign), None, nontrivial=False)
+    # unsupported orders whose default length 2^order-1 is degenerate or huge: ValueError before anything is allocated
+    for order in [-1, -7, 63, 64, 1000, 7.5, 33]:
+        for lv in (None, 5):
+            for sd in (3, None):
+                try:
+                    with warnings.catch_warnings():
+                        warnings.simplefilter("ignore")
+                        with deadline(60):
+                            PRBS(order, lv, sd)
+                    raised = "ok"
+                except Exception as e:
+                    raised = type(e).__name__
+                add({"kind": "verdict", "order": int(order) if order == int(order) else 1000 + int(order * 10), "lenKind": "none" if lv is None else "int",
+                     "lenSign": 0 if lv is None else 1, "raised": raised}, ("verdict", order, "none" if lv is None else "int", lv))
+                ctx.case(("verdict-degenerate-order", order, lv is None, sd is None), None, nontrivial=False)
     # ------------------------------------------------------------------ 3. TLC validates the recorded events
     bad = []
     B = 60000
